@@ -45,6 +45,7 @@ func leftmost(v ssa.Value) ssa.Value {
 
 func runC27(c *Ctx) {
 	u, r := c.U, c.R
+	seedfixC27(c)
 	// ---- R-COOKIE-MAC-FIRST
 	if fn := c.Fn("R-COOKIE-MAC-FIRST", "unpackOAuthCookie"); fn != nil {
 		cmp := u.Calls(fn, Is("crypto/subtle.ConstantTimeCompare"))
